@@ -1,0 +1,7 @@
+//go:build !verif
+
+package net
+
+// verifYield is a no-op unless the module is built with the "verif" tag; see
+// verif_hook_on.go.
+func verifYield(string) {}
